@@ -140,7 +140,8 @@ func (b *Blob) getBytes() ([]byte, error) {
 	if err != nil {
 		return nil, err
 	}
-	b.bytes.Store(blob.NewBytes(buf))
+	// NOTE: The Go copy must not be memoised: views share the JS buffer, so a write through another view (or through
+	// the viewed blob) would leave a memoised copy stale.
 	return buf, nil
 }
 
